@@ -229,6 +229,34 @@ pub fn probe(args: &Args) {
             }
         }
     }
+    // ---- names that look like something else: IPv4 / IPv6 literals and other all-numeric names (no rule of the list
+    // is numeric, so the implicit "*" rule decides: the last label is the suffix, the last two the registrable domain),
+    // numeric labels above rules, host:port shapes.  A lookup has no business treating them specially.
+    {
+        let mut v: Vec<String> = vec![
+            "127.0.0.1".into(), "10.0.0.1".into(), "1.2.3.7".into(), "255.255.255.255".into(), "0.0.0.0".into(), "256.1.1.1".into(),
+            "1.2.3".into(), "1.2".into(), "7".into(), "1.2.3.4.5".into(), "01.02.03.04".into(), "0x7f.0.0.1".into(), "2130706433".into(),
+            "::1".into(), "::ffff:1.2.3.4".into(), "fe80::1".into(), "[::1]".into(), "2001:db8::8.8.8.8".into(),
+            "www.10.0.0.1".into(), "10.0.0.1.com".into(), "1.2.3.4.co.uk".into(), "192.168.1.1.ck".into(), "1.www.ck".into(),
+            "example.com:443".into(), "a.b:80".into(), "localhost".into(), "a.localhost".into(), "1.localhost".into(),
+        ];
+        for _ in 0..(if thorough { 600 } else { 200 }) {
+            let n = rng.gen_range(1..=6);
+            let mut l: Vec<String> = (0..n).map(|_| match rng.gen_range(0..4) {
+                0 => rng.gen_range(0..256u32).to_string(),
+                1 => rng.gen_range(0..10u32).to_string(),
+                2 => rng.gen_range(256..100_000u32).to_string(),
+                _ => format!("{:x}", rng.gen_range(0..65536u32)),
+            }).collect();
+            if rng.gen_range(0..4) == 0 {
+                // ... above a rule of the list
+                let (_k, r) = all.choose(&mut rng).unwrap();
+                l.extend(r.iter().cloned());
+            }
+            v.push(l.join("."));
+        }
+        names.extend(v.into_iter().filter(|s| !s.split('.').any(|l| l == "*" || l.is_empty())));
+    }
     let canon = names.len();
     for n in &names {
         out.emit(observe("canon", n));
